@@ -79,6 +79,9 @@ fn judge(rec: &mut Rec, kind: Kind, i: i128, off: i32, info: &PatInfo) {
     if info.quoted_literal {
         rec.bin("literal/quoted");
     }
+    if info.other_type_literal {
+        rec.bin("literal/other-type's-symbol-run");
+    }
     let secs = v.tod / 1_000_000_000;
     let hour = (secs / 3600) as u32;
     let sub = (v.tod % 1_000_000_000) as u32;
@@ -328,33 +331,28 @@ pub fn run(ctx: &Ctx) -> PropResult {
             judge(rec, kind, i, off, &info);
         }));
     }
-    wls.push(Workload::cases("canonical_patterns", ctx.count(40_000, 1_000_000), |rec, idx, rng| {
-        // the patterns people actually write, incl. Display / FromStr / RFC 3339 shapes
-        const PATS: [(&str, Kind); 10] = [
-            ("yyyy-MM-dd HH:mm:ss", Kind::DateTime),
-            ("yyyy/MM/dd HH:mm:ss", Kind::DateTime),
-            ("yyyy-MM-ddTHH:mm:ss.nnnnnxxxxx", Kind::DateTime),
-            ("d.M.yyyy H:m:s", Kind::DateTime),
-            ("MMMM d, yyyy h:mm a", Kind::DateTime),
-            ("eeee, d MMMM yyyy", Kind::Date),
-            ("yyyy-MM-dd", Kind::Date),
-            ("yyyy-DDD", Kind::Date),
-            ("HH:mm:ss", Kind::Time),
-            ("h:mm:ss a xxx", Kind::Time),
-        ];
-        let (p, kind) = PATS[(idx % 10) as usize];
+    wls.push(Workload::cases("canonical_patterns", ctx.count(120_000, 3_000_000), |rec, idx, rng| {
+        // the patterns people actually write, incl. Display / FromStr / RFC 3339 shapes and compact key forms
+        let pats = &pattern_gen::COMMON_PATTERNS;
+        let (p, kind, four_digit_year, unambiguous) = pats[(idx % pats.len() as u64) as usize];
+        // yyyy directly followed by digits (yyyyMMdd…) is neither fixed-width nor delimiter-terminated in this
+        // library (the year field reads every digit it finds): outside the statement's quantifier
+        if !unambiguous || four_digit_year {
+            return;
+        }
         let (i, off) = gen_fmt_value(rng);
-        let off = if kind == Kind::Date { 0 } else if p.contains("xxx") && !p.contains("xxxxx") { off / 60 * 60 } else { off };
-        let info = describe(p);
+        let off = if kind == Kind::Date { 0 } else if p.to_ascii_lowercase().contains("xxx") && !p.to_ascii_lowercase().contains("xxxx") { off / 60 * 60 } else { off };
+        let info = describe(p, kind);
+        rec.bin("pattern/common-corpus");
         judge(rec, kind, i, off, &info);
     }));
     let out = run_workloads(ctx, wls);
     let mut meta = PropMeta::default();
-    meta.rule = "values as in C11 (BC, 1–7 digit years, hours 0/11/12/13/23, noon/midnight ±1 s, year edges, offsets with minutes/seconds of both signs) x patterns from the unambiguous-field grammar (model/pattern_gen.rs: ≤ 1 field per component in random order; a non-digit literal or the end after every variable-width numeric field; fixed-width fields adjacent; yyyyy+ only when the year fits; zone symbol wide enough for the offset; derived fields G q w e only next to a full date; literals incl. multi-byte characters, quoted text and ''; over-long runs) + ten canonical patterns. Per case: parse(format(v,p),p) must be Ok, re-format to the same string; with a full date, time of day and zone the instant and offset must be v's (without a zone: the shown fields as UTC); absent fields must read 0001-01-01 / 00:00:00 / UTC. Skipped: a month/day or day-of-year without a year when that date does not exist in year 1. Every case non-trivial; distinct by hash of (value, pattern). Delimiters include two literal tokens of different kinds side by side (plain then quoted and vice versa), quoted text starting/ending in white space and quoted text that continues an English name ('day', 'tember', 'M').".into();
+    meta.rule = "values as in C11 (BC, 1–7 digit years, hours 0/11/12/13/23, noon/midnight ±1 s, year edges, offsets with minutes/seconds of both signs) x patterns from the unambiguous-field grammar (model/pattern_gen.rs: ≤ 1 field per component in random order; a non-digit literal or the end after every variable-width numeric field; fixed-width fields adjacent; yyyyy+ only when the year fits; zone symbol wide enough for the offset; derived fields G q w e only next to a full date; literals incl. multi-byte characters, quoted text and ''; over-long runs) + the unambiguous part of a corpus of 62 patterns people actually write (compact forms like yyyyMMdd are outside: the year field is not delimiter-terminated there). For a Date the time symbols and for a Time the date symbols are literal text: such runs (HH, mm, T HH:mm, yyyy, MM …) are used as delimiters too. Per case: parse(format(v,p),p) must be Ok, re-format to the same string; with a full date, time of day and zone the instant and offset must be v's (without a zone: the shown fields as UTC); absent fields must read 0001-01-01 / 00:00:00 / UTC. Skipped: a month/day or day-of-year without a year when that date does not exist in year 1. Every case non-trivial; distinct by hash of (value, pattern). Delimiters include two literal tokens of different kinds side by side (plain then quoted and vice versa), quoted text starting/ending in white space and quoted text that continues an English name ('day', 'tember', 'M').".into();
     meta.required_bins = vec![
         "sym/y1", "sym/y2", "sym/y4", "sym/y6", "sym/M1", "sym/M3", "sym/M4", "sym/d1", "sym/D1", "sym/D2", "sym/D3", "sym/h1", "sym/K2", "sym/k1", "sym/H1", "sym/a4", "sym/b5", "sym/b3",
         "sym/m1", "sym/s1", "sym/n1", "sym/n4", "sym/n5", "sym/X1", "sym/X4", "sym/X5", "sym/x1", "sym/x5", "sym/x6", "sym/G4", "sym/q4", "sym/w1", "sym/e4",
-        "literal/multi-byte", "literal/quoted", "value/month>=10-under-M", "value/hour0or12-under-12h-clock", "value/hour0-under-k", "value/noon-or-midnight-under-b", "value/doy>=100",
+        "literal/multi-byte", "literal/quoted", "literal/other-type's-symbol-run", "pattern/common-corpus", "value/month>=10-under-M", "value/hour0or12-under-12h-clock", "value/hour0-under-k", "value/noon-or-midnight-under-b", "value/doy>=100",
         "value/negative-year", "value/5+digit-year", "value/zone-with-seconds", "value/zone-zero", "claim/instant+offset", "claim/local-fields-as-UTC", "claim/same-date", "claim/time+offset", "claim/defaults",
     ];
     meta.assumptions = vec!["`yy` takes part in string-level round trips only (it re-reads into the current millennium by design)".into()];
@@ -362,7 +360,7 @@ pub fn run(ctx: &Ctx) -> PropResult {
 }
 
 /// PatInfo for a hand-written pattern (same bookkeeping as the generator).
-pub fn describe(p: &str) -> PatInfo {
+pub fn describe(p: &str, kind: Kind) -> PatInfo {
     use crate::model::fmt_spec::{tokenize, Tok};
     let mut info = PatInfo { pattern: p.to_string(), ..Default::default() };
     for t in tokenize(p).unwrap_or_default() {
@@ -373,6 +371,11 @@ pub fn describe(p: &str) -> PatInfo {
                 }
             }
             Tok::Run(c, w) => {
+                if !crate::model::fmt_spec::is_symbol(kind, c) {
+                    // the other type's symbols are literal text for this type
+                    info.other_type_literal = true;
+                    continue;
+                }
                 match c {
                     'y' => {
                         info.has_year = true;
